@@ -379,7 +379,9 @@ def check_C01(prop, tier, only):
     c = cfgs_for(tier)
     jobs = (pool_suite(tier, c, extra="--tries 1", fams=("member", "traits")) + coll_suite(tier, c, extra="--tries 1", fams=("member",))
             + stack_suite(tier, c, extra="--tries 1") + iter_suite(tier, c) + arena_suite(tier, c[:1]))
-    return run_explore_check(prop, tier, jobs, only, note=NOTE_BFS +
+    ej = [J("h_lowlevel", cfg, "--mode dfs", name=f"lowlevel-dfs[{cfg}]") for cfg in c]
+    return run_explore_check(prop, tier, jobs, only, enum_jobs=ej, note=NOTE_BFS +
+                             "low-level allocators (heap/malloc/new/virtual memory): all sequences up to depth 5/6 over 5 request shapes and releases (stateless DFS); "
                              "M-disjoint / M-inside / M-content on every transition: each returned range is disjoint from all live ranges, lies inside an "
                              "outstanding upstream block behind the arena header, and every live byte keeps the user pattern after every operation; "
                              "M-freelist: no free-list node is part of a live allocation")
@@ -455,7 +457,10 @@ def check_C15(prop, tier, only):
     c = [x for x in cfgs_for(tier) if x != "rel"] + (["rel"] if tier != "quick" else [])
     jobs = (pool_suite(tier, c, fams=("traits",)) + pool_suite(tier, c[:1], extra="--moves 2", fams=("traits",)) + coll_suite(tier, c, fams=("traits",))
             + stack_suite(tier, c, fams=("traits",)) + stack_suite(tier, c[:1], extra="--moves 2", fams=("traits",)))
-    return run_explore_check(prop, tier, jobs, only, note=NOTE_BFS +
+    ej = [J("h_lowlevel", cfg, "--mode leak", name=f"lowlevel-leak[{cfg}]") for cfg in c]
+    return run_explore_check(prop, tier, jobs, only, enum_jobs=ej, note=NOTE_BFS +
+                             "stateless low-level allocators: every multiset of <= 2/3 allocations x every released subset runs in a forked child that exits normally, "
+                             "the leak handler must fire once per allocator with the exact net (incl. the fences the allocator obtained) or not at all; " +
                              "allocator_traits family only; ledger net = sum of traits allocations - deallocations per object identity as moved; M-leak: on "
                              "destruction exactly one handler call with the exact net and the allocator's address if net != 0, none if 0 (never in rel)")
 
